@@ -45,6 +45,10 @@ func init() {
 			in.abort("hang", "blocks forever: "+argStr(a[0]), fr.servitorSite())
 			return nil, true
 		},
+		"servitor/verifrt.ExploreSchedules": func(in *Interp, fr *frame, fn *ssa.Function, a []Value) (Value, bool) {
+			in.sched.explore = a[0].(SBool).V && in.ex.cfg.ScheduleMode
+			return nil, true
+		},
 		"servitor/verifrt.All":     vrAll,
 		"servitor/verifrt.Any":     vrAny,
 		"servitor/verifrt.InSet":   vrInSet,
